@@ -42,7 +42,11 @@ func genHistory(r *RNG, n int) []Op {
 		var op Op
 		switch r.Intn(10) {
 		case 0:
-			ops = append(ops, genAnimEncOp(r))
+			if r.Bool() {
+				ops = append(ops, genAnimEncOp(r))
+			} else {
+				ops = append(ops, genHostileOp(r))
+			}
 			continue
 		case 1, 2, 3:
 			op = GenStillOp(r, 1, 80, true)
@@ -67,10 +71,10 @@ func genHistory(r *RNG, n int) []Op {
 				op.Img.H = 1
 			}
 		}
-		if r.Pct(25) && i > 0 && ops[len(ops)-1].Kind != "animenc" {
+		if r.Pct(25) && i > 0 {
 			// same image and codec as an earlier op, different options
 			prev := ops[r.Intn(len(ops))]
-			if prev.Kind == "animenc" {
+			if prev.Kind == "animenc" || prev.Kind == "hostile" {
 				prev = op
 			}
 			op.Img = prev.Img
@@ -135,13 +139,13 @@ func (propC11) Execute(pp any, x *X) *Violation {
 	inputs := make([][]byte, len(p.Ops))
 	for i, op := range p.Ops {
 		if needsInput(op) {
-			inputs[i] = FileFor(op.Img, op.Opt)
+			inputs[i] = InputFor(op)
 		}
 	}
 	inputs2 := make([][]byte, len(p.Second))
 	for i, op := range p.Second {
 		if needsInput(op) {
-			inputs2[i] = FileFor(op.Img, op.Opt)
+			inputs2[i] = InputFor(op)
 		}
 	}
 	results := make([]Result, len(p.Ops))
@@ -247,4 +251,19 @@ func (propC11) Describe() PropDoc {
 		Reference: []string{"the same call as the first call of a fresh world (pools empty), and on a sample in a fresh OS process with the un-rewritten library"},
 		MustReach: []string{"pool_hit", "histories_with_pool_reuse"},
 	}
+}
+
+// genHostileOp: every decoding entry point on a corrupted or truncated stored file
+// (stills and animations) as one operation of a history.
+func genHostileOp(r *RNG) Op {
+	p := propC05{}.Gen(r.Next(), "quick", 1).(*C05Params)
+	if p.Base == "mux" || p.Base == "random" {
+		p.Base = "anim"
+		a := GenAnimSpec(r, 24, 5, r.Bool(), 50)
+		p.Anim = &a
+	}
+	if r.Pct(50) {
+		p.Faults = []CorruptOp{{Kind: "truncate", Pos: r.Intn(1000)}}
+	}
+	return Op{Kind: "hostile", Hostile: p}
 }
